@@ -136,8 +136,14 @@ class C17(Property):
         '(oracle, by hiding numpy in sys.modules for the call); no theorem (configuration of the interpreter)',
         'defaults n=1 (binary_irrev_cstr), t0=0 and the unused P0=1 (dimerization_irrev): passed explicitly in the theorems; their '
         'default values are pinned by the *_sig_guard theorems and exercised by the oracle only',
-        'binary_irrev_cstr above the steady state (2*k*r**2 + fv*r >= fv*fr): no theorem (known finding, the Python returns nan / raises)',
-        'binary_irrev with major == minor: excluded (0/0 in the source for every t)',
+        'binary_irrev_cstr above the steady state (2*k*r**2 + fv*r >= fv*fr): nothing positive can be proved about the CODE there (known '
+        'finding: nan / ValueError; Lean\'s artanh is total). The SPECIFICATION of the missing branch is now a theorem family '
+        '(binary_irrev_cstr_above_ode_reactant/_product/_init over the hand-written coth form binaryIrrevCstrAbove); that the sympy backend '
+        'evaluates this branch is checked numerically by the oracle only',
+        'binary_irrev with major == minor: excluded (0/0 in the source for every t); the limit major -> minor is not stated',
+        'uniqueness (the closed form is THE solution): now theorems for all seven closed forms on their documented domain (global for the '
+        'linear ones, on every interval [start, T] for the quadratic ones; both components for the two stirred tanks); NOT stated for '
+        'binary_irrev with major < minor and not for the coth specification above the steady state',
         'finiteness of the FLOAT evaluation (overflow of a growing exponential, inf/inf, inf*0): invisible to the theorems, which are about '
         'real numbers - an algebraically identical rewrite with exp(+kf*t*(major-minor)) keeps every theorem provable but returns nan / '
         'raises OverflowError for kf*(major-minor)*t > 709. The exponent SIGNS are now theorems (`*_exp_args_nonpos`); the float behaviour itself is decided by the oracle only (late/fast regime: rate*t up to 1e5, every backend '
